@@ -149,6 +149,13 @@ pub fn stress_pairs() -> Vec<Tree> {
         Tree::Radix4(1, b(Tree::Dft(3))),
         Tree::Radix3(1, b(Tree::Bluesteins(2, b(Tree::Bfly(4))))),
         Tree::RadixN(vec![2, 3], b(Tree::Bluesteins(2, b(Tree::Bfly(4))))),
+        // inner transforms whose in-place scratch is EXACTLY len + 1 (the boundary of "needs more than the lent buffer")
+        Tree::Bluesteins(2, b(Tree::Bfly(3))),                                                     // len 2, scratch 3
+        Tree::Bluesteins(4, b(Tree::Dft(7))),                                                      // len 4, scratch 14 (inner Dft needs its length)
+        Tree::MixedRadix(b(Tree::Bluesteins(1, b(Tree::Bfly(1)))), b(Tree::Bfly(4))),              // len 4, scratch 5
+        Tree::MixedRadix(b(Tree::Bluesteins(1, b(Tree::Bfly(1)))), b(Tree::Bfly(6))),              // len 6, scratch 7
+        // … exactly len, and len + 2
+        Tree::Dft(4), Tree::Bluesteins(3, b(Tree::Bfly(5))),
     ];
     let mut out = vec![];
     for i in inners.clone() {
